@@ -1,13 +1,53 @@
 import Mp4ff.Model.Cenc
 import Mp4ff.Expect.Facts
+import Mp4ff.Lemmas.C07
 /-!
 # C07 — encrypted output is well-formed Common Encryption and matches a reference cipher
-(Property theorems are added from `Mp4ff/Lemmas/Cenc*.lean` when completed.)
+Property theorems (proofs in `Mp4ff/Lemmas/C07.lean`, `CencRanges.lean`, `CencCipher.lean`).
 -/
 namespace Mp4ff.Cenc.C07
+open Mp4ff.Nalu
 
 /-- the two constants the range computation depends on are the ones in mp4/crypto.go today -/
-theorem source_constants : Generated.const_minClearSize = minClearSize ∧ Generated.const_naluHdrLen = naluHdrLen := by
-  exact ⟨Expect.consts.1, Expect.consts.2.1⟩
+theorem source_constants : Generated.const_minClearSize = minClearSize ∧ Generated.const_naluHdrLen = naluHdrLen :=
+  ⟨Expect.consts.1, Expect.consts.2.1⟩
+
+/-- **sub-sample entries partition the sample and protect exactly what the standard asks**, for every well-formed
+    AVC or HEVC sample: NAL length fields, NAL headers, non-video units and the head of each long video unit clear;
+    the tail of every video unit of ≥ 108 bytes protected to its end in whole 16-byte blocks; no clear count > 65535 -/
+theorem protectRanges_cenc (c : Codec) (ns : List Bytes) (h : NalusOK ns) (hne : ns ≠ []) :
+    ∃ rs, protectRanges c none (lenPrefixed ns) = some rs ∧ maskOf rs = cencMask c ns ∧
+      (∀ r ∈ rs, r.clear ≤ 65535 ∧ r.prot % 16 = 0) := Cenc.protectRanges_cenc c ns h hne
+
+/-- per unit: protected bytes are a multiple of 16 and end at the unit's end; a video unit longer than 127 bytes is
+    protected starting at most 127 bytes in; non-video units are never protected -/
+theorem cencProt_shape (c : Codec) (n : Bytes) :
+    cencProt c n % 16 = 0 ∧ cencProt c n ≤ n.length ∧
+    (c.isVideo (c.typeOf (n.headD 0)) = true → n.length > 127 → n.length - cencProt c n ≤ 127 ∧ 0 < cencProt c n) ∧
+    (c.isVideo (c.typeOf (n.headD 0)) = false → cencProt c n = 0) := Cenc.cencProt_shape c n
+
+/-- `AppendProtectRange` splits clear runs above 65535 bytes without changing what is protected -/
+theorem appendProtectRange_spec (l : List SubSample) (c p : Nat) :
+    ∃ ext, appendProtectRange l c p = l ++ ext ∧ (ext.map (·.clear)).sum = c ∧ (ext.map (·.prot)).sum = p ∧
+      (∀ r ∈ ext, r.clear ≤ 65535) ∧ maskOf ext = List.replicate c false ++ List.replicate p true :=
+  Cenc.appendProtectRange_spec l c p
+
+/-- **per-sample IVs advance by the number of cipher blocks used** (big-endian addition modulo 2^(8·len)), so the
+    counter intervals of consecutive samples are adjacent and never overlap inside a fragment -/
+theorem incrementIV_spec (iv : Bytes) (hiv : IsBytes iv) (ranges : List SubSample) (len : Nat) :
+    (incrementIV iv ranges len).length = iv.length ∧
+    beVal (incrementIV iv ranges len) = (beVal iv + nrEncBlocks ranges len) % 256 ^ iv.length :=
+  Cenc.incrementIV_spec iv hiv ranges len
+
+/-- **everything outside the protected ranges is byte-identical to the clear input**, and the length is unchanged -/
+theorem cryptCenc_clear_unchanged (E : Block → Block) (hE : ∀ b, (E b).length = 16)
+    (sample iv : Bytes) (ranges : List SubSample) (hne : ranges ≠ []) (hf : RangesFit ranges sample.length)
+    (i : Nat) (hi : i < sample.length) (hm : (maskOf ranges).getD i false = false) :
+    (cryptCenc E sample iv ranges)[i]? = sample[i]? ∧ (cryptCenc E sample iv ranges).length = sample.length :=
+  Cenc.cryptCenc_clear_unchanged E hE sample iv ranges hne hf i hi hm
+
+example : NalusOK [[0x65, 1, 2, 3], [0x06, 9]] := by
+  refine ⟨?_, by decide⟩
+  intro n hn; simp at hn; rcases hn with h | h <;> subst h <;> simp [IsBytes]
 
 end Mp4ff.Cenc.C07
